@@ -79,7 +79,9 @@ func cmdCrashChild(args []string) {
 		os.Stdout.WriteString(fmt.Sprintf("ACK %d %v %v\n", i, res["st"], res["err"]))
 	}
 	os.Stdout.WriteString("DONE\n")
+	os.Stdout.WriteString("CLOSING\n")
 	b.db.Close()
+	os.Stdout.WriteString("CLOSED\n")
 }
 
 func cmdCrash(args []string) {
@@ -148,7 +150,7 @@ func runKill(seed int64, be, work string) ([][]byte, string) {
 	defer os.RemoveAll(dir)
 	evs, u := crashHistory(seed)
 	r := rand.New(rand.NewSource(seed ^ 0x5eed))
-	target := r.Intn(len(evs) + 1) // kill around operation `target` (len(evs): after the last one)
+	target := r.Intn(len(evs) + 6) // kill around operation `target` (>= len(evs): inside Close)
 	inside := r.Intn(3) != 0      // inside the operation (after its START), else right after the previous ACK
 	delay := time.Duration(r.Intn(1500)) * time.Microsecond
 	if r.Intn(4) == 0 {
@@ -185,7 +187,13 @@ func runKill(seed int64, be, work string) ([][]byte, string) {
 				e = f[3]
 			}
 			acks[i] = ack{f[2], e}
-			if i+1 == target && !inside {
+			if i+1 == target && !inside && target < len(evs) {
+				cmd.Process.Signal(syscall.SIGKILL)
+				killed = true
+			}
+		case "CLOSING": // kill inside Close: the store is flushing and deleting its files
+			if target >= len(evs) {
+				time.Sleep(delay * 3)
 				cmd.Process.Signal(syscall.SIGKILL)
 				killed = true
 			}
@@ -219,6 +227,9 @@ func runKill(seed int64, be, work string) ([][]byte, string) {
 	lines = append(lines, marshalLine(E{"op": "Reset", "profile": "crash", "seed": seed, "numTable": "general", "timeTable": "general",
 		"backends": be, "runs": []interface{}{E{"be": "-", "res": E{"st": "ok", "err": ""}}}}))
 	class := "between"
+	if target >= len(evs) {
+		class = "inside-close"
+	}
 	for i, e := range evs {
 		line := E{}
 		for k, v := range e {
@@ -243,6 +254,9 @@ func runKill(seed int64, be, work string) ([][]byte, string) {
 	var audit E
 	if err := b.reopen(); err != nil {
 		audit = E{"failed": "reopen: " + err.Error()}
+		if keep := os.Getenv("VERIF_KEEP_CRASH"); keep != "" {
+			exec.Command("cp", "-r", dir, keep).Run()
+		}
 	} else {
 		audit = x.Audit(b)
 		b.db.Close()
